@@ -350,10 +350,17 @@ func (t *Txn) Exec(sql string) (res StmtResult) {
 			}
 			return
 		}
+		if PlanWrap != nil {
+			plan = PlanWrap(plan)
+		}
 		res.Rows, res.Aborted, res.IsQuery = t.runPlan(plan)
 	})
 	return res
 }
+
+// PlanWrap (optional) puts a plan node on top of the plan of the next statements (C14: a LIMIT node, which the
+// SQL front end parses but does not plan - the parent stops pulling before its child is exhausted).
+var PlanWrap func(plans.Plan) plans.Plan
 
 func (t *Txn) runPlan(plan plans.Plan) (Rows, bool, bool) {
 	ctx := executors.NewExecutorContext(t.db.Cat(), t.db.BPM(), t.T)
